@@ -433,6 +433,71 @@ def complex_sign_fn(syn):
             "  ensures imaginary == (if sign.kind == TokenKind::Dash { RealNumber::Negated(Box::new(imaginary_num)) } else { imaginary_num }),\n{\n  %s\n  imaginary\n}\n" % st)
 
 
+TYPED_LIT_MODEL = """
+pub struct Literal { pub id: u64 }
+pub struct NodeKind { pub id: u64 }
+pub struct KindAnnotation { pub kind: NodeKind }
+pub struct Interpreter { pub steps: Ghost<Seq<Fx>> }
+pub struct MechError { pub id: u64 }
+#[derive(Clone, Copy, PartialEq, Eq, Structural)]
+pub struct Value { pub id: u64 }
+#[derive(Clone, Copy)]
+pub struct Kind { pub id: u64 }
+#[derive(Clone, Copy, PartialEq, Eq, Structural)]
+pub struct Fx { pub a: Value, pub b: Value }
+pub uninterp spec fn lit_val(l: Literal) -> Option<Value>;            // literal(l, p)
+pub uninterp spec fn kind_val(k: NodeKind) -> Option<Kind>;           // kind_annotation(k, p)
+pub uninterp spec fn kind_as_value(k: Kind) -> Option<Value>;         // Kind::to_value
+pub uninterp spec fn convertible(v: Value, k: Value) -> bool;         // ConvertKind{}.compile accepts (value, kind)      -- C12's subject
+pub uninterp spec fn converted(v: Value, k: Value) -> Value;          // the value the compiled conversion holds after solve() -- C12's subject
+#[verifier::external_body]
+pub fn literal(l: &Literal, p: &mut Interpreter) -> (r: Result<Value, MechError>)
+  ensures final(p).steps == old(p).steps, (match r { Ok(v) => lit_val(*l) == Some(v), Err(_) => lit_val(*l) is None }), { unimplemented!() }
+#[verifier::external_body]
+pub fn kind_annotation(k: &NodeKind, p: &mut Interpreter) -> (r: Result<Kind, MechError>)
+  ensures final(p).steps == old(p).steps, (match r { Ok(v) => kind_val(*k) == Some(v), Err(_) => kind_val(*k) is None }), { unimplemented!() }
+impl Kind {
+  #[verifier::external_body]
+  pub fn to_value(&self, p: &Interpreter) -> (r: Result<Value, MechError>)
+    ensures (match r { Ok(v) => kind_as_value(*self) == Some(v), Err(_) => kind_as_value(*self) is None }), { unimplemented!() }
+}
+pub struct ConvertKind {}
+impl ConvertKind {
+  #[verifier::external_body]
+  pub fn compile(&self, args: &Vec<Value>) -> (r: Result<Fx, MechError>)
+    requires args@.len() == 2,
+    ensures (match r { Ok(f) => convertible(args@[0], args@[1]) && f.a == args@[0] && f.b == args@[1], Err(_) => !convertible(args@[0], args@[1]) }), { unimplemented!() }
+}
+impl Fx {
+  #[verifier::external_body] pub fn solve(&self) { unimplemented!() }
+  #[verifier::external_body] pub fn out(&self) -> (v: Value) ensures v == converted(self.a, self.b), { unimplemented!() }
+}
+#[verifier::external_body]
+pub fn add_plan_step(p: &mut Interpreter, f: Fx) ensures final(p).steps@ == old(p).steps@.push(f), { unimplemented!() }
+// ---- THE CONTRACT (C13: "a suffixed or annotated literal ... is either clamped as documented or rejected"): an annotated literal is the literal's own value
+// converted to the annotated kind (conversion rule = C12), and it is rejected when either part fails or no conversion exists -- never the unconverted value
+pub open spec fn typed_spec(l: Literal, k: NodeKind) -> Option<Value> {
+  match lit_val(l) { None => None, Some(v) =>
+  match kind_val(k) { None => None, Some(kk) =>
+  match kind_as_value(kk) { None => None, Some(kv) => if convertible(v, kv) { Some(converted(v, kv)) } else { None } } } }
+}
+"""
+
+
+def typed_literal_fn(text, feats):
+    """`typed_literal` (whole body): `p: &Interpreter` -> `&mut` (ghost plan steps), `K.to_value(&p.state.borrow().kinds)` -> `K.to_value(p)`,
+    `p.state.borrow_mut().add_plan_step(f)` -> `add_plan_step(p, f)`, `MResult` -> `Result<_, MechError>`; cfg attributes evaluated"""
+    from units import vC16
+    sig, body = extract_fn(text, "typed_literal")
+    b = vC16.apply_cfg(re.sub(r"//[^\n]*", "", body).replace("\r", ""), feats).strip()[1:-1]
+    b, n1 = re.subn(r"(\w+)\.to_value\(\s*&p\.state\.borrow\(\)\.kinds\s*\)", r"\1.to_value(p)", b)
+    b, n2 = re.subn(r"p\.state\.borrow_mut\(\)\.add_plan_step\(\s*(\w+)\s*\)", r"add_plan_step(p, \1)", b)
+    if (n1, n2) != (1, 1) or re.search(r"\b(borrow|borrow_mut|state)\b", b):
+        raise AnchorLost("typed_literal: the body is outside the transcription rules %r" % ((n1, n2),))
+    return ("fn typed_literal(ltrl: &Literal, knd_attn: &KindAnnotation, p: &mut Interpreter) -> (res: Result<Value, MechError>)\n"
+            "  ensures (match typed_spec(*ltrl, knd_attn.kind) { Some(v) => res == Ok::<Value, MechError>(v), None => res is Err }),\n{\n" + b + "\n}\n")
+
+
 def plan_units(plan):
     text = read_repo(LIT_RS)
     nodes = read_repo(NODES_RS)
@@ -457,6 +522,7 @@ def plan_units(plan):
         ("c13_complex", lambda: complex_(text), {"complex": "C13.verus.complex.re_im_parts"}),
         ("c13_route", lambda: routing(text, nodes, feats), {"real_route": "C13.verus.real.routing_table"}),
         ("c13_typed", lambda: [TYPED_MODEL, typed_integer_arm(text, feats)], {"typed_integer_arm": "C13.verus.real.suffixed_integer_clamps"}),
+        ("c13_typed_literal", lambda: [TYPED_LIT_MODEL, typed_literal_fn(text, feats)], {"typed_literal": "C13.verus.typed_literal.literal_then_conversion"}),
         ("c13_syn_sign", lambda: [SYN_MODEL, exponent_sign_fragment(read_repo(SYN_RS))], {"exponent_sign": "C13.verus.syntax.scientific_literal.exponent_sign"}),
         ("c13_syn_neg", lambda: [SYN_MODEL, SYN_NUM_MODEL, negation_fn(read_repo(SYN_RS), "real_number"), negation_fn(read_repo(SYN_RS), "untyped_real_number")],
          {"real_number": "C13.verus.syntax.real_number.negated_iff_minus", "untyped_real_number": "C13.verus.syntax.untyped_real_number.negated_iff_minus"}),
@@ -474,6 +540,7 @@ def plan_units(plan):
         "real_number": "the parser negates a real literal exactly when it consumed a minus sign in front of it", "untyped_real_number": "the parser negates an unsuffixed real literal exactly when it consumed a minus sign in front of it",
         "complex_imaginary_sign": "the imaginary part of `a - bi` is the negated literal, that of `a + bi` the literal itself",
         "exponent_sign": "the parser of a scientific literal sets the negative-exponent flag exactly when the sign it consumed between the exponent marker and the exponent digits is a minus (an explicit plus, or no sign, leaves it unset)",
+        "typed_literal": "an annotated / suffixed literal is the value of the literal itself converted to the annotated kind (the conversion of C12 applied to (value, kind) in that order; the CONVERTED value is returned); if the literal, the kind or the conversion fails the literal is rejected",
         "real_route": "every literal form is evaluated by its own evaluator"}
     for uname, build, fns in groups:
         try:
@@ -483,7 +550,7 @@ def plan_units(plan):
                 plan.anchor_errors.append((on, str(e)))
             continue
         can = "canary_" + uname
-        utext = vlib.verus_file((items if uname in ("c13_typed", "c13_syn_sign", "c13_syn_neg", "c13_syn_complex") else aliases + [model] + items) + [verus_canary(can, "x: u64", [])])
+        utext = vlib.verus_file((items if uname in ("c13_typed", "c13_typed_literal", "c13_syn_sign", "c13_syn_neg", "c13_syn_complex") else aliases + [model] + items) + [verus_canary(can, "x: u64", [])])
         for fn, on in fns.items():
             plan.ob(on, "verus", "proved", functions=["src/interpreter/src/literals.rs: %s()" % fn.replace("real_route", "real").replace("typed_integer_arm", "real").replace("exponent_sign", "scientific_literal [src/syntax/src/literals.rs]").replace("complex_imaginary_sign", "complex_number [src/syntax/src/literals.rs]")], what=what[fn])
         plan.verus.append(VerusUnit(uname, utext, fns, [can]))
